@@ -784,4 +784,98 @@ theorem C19_permute_pinned_counterexample :
     validate_permute [2, 3, 4] [-3, -2, -1] = .error .reject := by
   refine ⟨by decide, by decide, C19_rejects_permute _ _ (by decide)⟩
 
+/-! ### argument forms (second mutation study) -/
+
+/-- `ktensor.ttv` with multiplicands of any order: a multiplicand that is used and is not, after dropping its
+singleton axes, a vector with the extent of its mode is rejected - in particular a matrix with the right number of
+rows (which would broadcast against the weights). -/
+theorem C19_rejects_ttv_multiplicand (a : TtvMArgs) (h : ¬ Pre_ttvM a) : validate_ttvM a = .error .reject :=
+  rejects_of_guard (validate_ttvM_ok_iff a) h
+
+theorem C19_accepts_ttv_multiplicand (a : TtvMArgs) (h : Pre_ttvM a) : validate_ttvM a = .ok () :=
+  (validate_ttvM_ok_iff a).2 h
+
+example : Pre_ttvM ⟨[2, 3, 4], [[2], [3, 1], [1, 4]], none, none⟩ ∧ ¬ Pre_ttvM ⟨[2, 3, 4], [[2], [3], [4, 2]], none, none⟩ ∧
+    ¬ Pre_ttvM ⟨[2, 3, 4], [[4, 2]], some [2], none⟩ ∧ Pre_ttvM ⟨[2, 3, 4], [[4, 2], [3], [4, 4]], some [1], none⟩ := by decide
+
+/-- `khatrirao` of arrays of any order: an argument that is not 2-dimensional is rejected whatever its extents
+(before the column counts are looked at), in either order of multiplication. -/
+theorem C19_rejects_khatrirao_order (shapes : List (List Nat)) (rev : Bool) (h : ¬ Pre_khatriraoND shapes) :
+    validate_khatriraoND shapes rev = .error .reject :=
+  rejects_of_guard (validate_khatriraoND_ok_iff shapes rev) h
+
+theorem C19_accepts_khatrirao_order (shapes : List (List Nat)) (rev : Bool) (h : Pre_khatriraoND shapes) :
+    validate_khatriraoND shapes rev = .ok () := (validate_khatriraoND_ok_iff shapes rev).2 h
+
+example : Pre_khatriraoND [[2, 3], [5, 3]] ∧ ¬ Pre_khatriraoND [[2, 3, 4], [5, 3]] ∧ ¬ Pre_khatriraoND [[5, 3], [3]] := by decide
+
+/-- `sptensor(subs, vals, …)` given exactly one of subscripts and values is rejected (neither: the empty tensor). -/
+theorem C19_rejects_sptensor_given (subs vals : Bool) (h : ¬ Pre_sptensorGiven subs vals) :
+    validate_sptensorGiven subs vals = .error .reject :=
+  rejects_of_guard (validate_sptensorGiven_ok_iff subs vals) h
+
+theorem C19_accepts_sptensor_given (subs vals : Bool) (h : Pre_sptensorGiven subs vals) :
+    validate_sptensorGiven subs vals = .ok () := (validate_sptensorGiven_ok_iff subs vals).2 h
+
+/-- `sptenmat` given subscripts or values without the other, or either without a mode split, is rejected. -/
+theorem C19_rejects_sptenmat_given (subs vals dims : Bool) (h : ¬ Pre_sptenmatGiven subs vals dims) :
+    validate_sptenmatGiven subs vals dims = .error .reject :=
+  rejects_of_guard (validate_sptenmatGiven_ok_iff subs vals dims) h
+
+theorem C19_accepts_sptenmat_given (subs vals dims : Bool) (h : Pre_sptenmatGiven subs vals dims) :
+    validate_sptenmatGiven subs vals dims = .ok () := (validate_sptenmatGiven_ok_iff subs vals dims).2 h
+
+example : Pre_sptenmatGiven true true true ∧ Pre_sptenmatGiven false false false ∧ ¬ Pre_sptenmatGiven true false false ∧
+    ¬ Pre_sptenmatGiven true true false ∧ ¬ Pre_sptenmatGiven false true true := by decide
+
+/-- data handed to `ktensor.from_vector` that is not a vector (an array of order 3 or more whatever its extents, a
+matrix with several rows and columns, a 0-d array) is rejected. -/
+theorem C19_rejects_nonvector (s : List Nat) (h : ¬ Pre_isVector s) : validate_isVector s = .error .reject :=
+  rejects_of_guard (validate_isVector_ok_iff s) h
+
+theorem C19_accepts_vector (s : List Nat) (h : Pre_isVector s) : validate_isVector s = .ok () :=
+  (validate_isVector_ok_iff s).2 h
+
+example : Pre_isVector [18] ∧ Pre_isVector [18, 1] ∧ Pre_isVector [1, 18] ∧ ¬ Pre_isVector [18, 1, 1] ∧
+    ¬ Pre_isVector [1, 1, 18] ∧ ¬ Pre_isVector [9, 2] ∧ ¬ Pre_isVector [] := by decide
+
+/-- an array with two or more axes longer than 1 (also an empty one, `(0, k)`) handed over as a shape is rejected. -/
+theorem C19_rejects_shape_array (s : List Nat) (h : ¬ Pre_shapeArray s) : validate_shapeArray s = .error .reject :=
+  rejects_of_guard (validate_shapeArray_ok_iff s) h
+
+theorem C19_accepts_shape_array (s : List Nat) (h : Pre_shapeArray s) : validate_shapeArray s = .ok () :=
+  (validate_shapeArray_ok_iff s).2 h
+
+example : Pre_shapeArray [3] ∧ Pre_shapeArray [3, 1, 1] ∧ Pre_shapeArray [1, 1] ∧ ¬ Pre_shapeArray [0, 2] ∧
+    ¬ Pre_shapeArray [2, 2] ∧ ¬ Pre_shapeArray [1, 2, 3] := by decide
+
+
+/-- `tenfun` with a function of two arguments and none or several other operands (the surplus would be ignored), or
+a function of no / three arguments: rejected. -/
+theorem C19_rejects_tenfun_arity (nargs others : Nat) (h : ¬ Pre_tenfunArity nargs others) :
+    validate_tenfunArity nargs others = .error .reject :=
+  rejects_of_guard (validate_tenfunArity_ok_iff nargs others) h
+
+theorem C19_accepts_tenfun_arity (nargs others : Nat) (h : Pre_tenfunArity nargs others) :
+    validate_tenfunArity nargs others = .ok () := (validate_tenfunArity_ok_iff nargs others).2 h
+
+example : Pre_tenfunArity 2 1 ∧ Pre_tenfunArity 1 3 ∧ ¬ Pre_tenfunArity 2 2 ∧ ¬ Pre_tenfunArity 2 0 ∧ ¬ Pre_tenfunArity 3 1 := by
+  decide
+
+/-- `S[subs] = value` with fewer subscript columns than modes is rejected … -/
+theorem C19_rejects_set_subs_width (N width : Nat) (h : ¬ Pre_setSubsWidth N width) :
+    validate_setSubsWidth N width = .error .reject :=
+  rejects_of_guard (validate_setSubsWidth_ok_iff N width) h
+
+theorem C19_accepts_set_subs_width (N width : Nat) (h : Pre_setSubsWidth N width) :
+    validate_setSubsWidth N width = .ok () := (validate_setSubsWidth_ok_iff N width).2 h
+
+/-- … and the receiver is as it was: the width test precedes the first write. -/
+theorem C19_receiver_unchanged_set_subs_width {σ : Type} (N width : Nat) (step : σ → σ) (s : σ)
+    (h : ¬ Pre_setSubsWidth N width) : inPlace (validate_setSubsWidth N width) step s = (s, .error .reject) :=
+  inPlace_reject _ step s (C19_rejects_set_subs_width N width h)
+
+example : Pre_setSubsWidth 2 2 ∧ Pre_setSubsWidth 2 3 ∧ ¬ Pre_setSubsWidth 2 1 ∧ ¬ Pre_setSubsWidth 3 0 := by decide
+
+
 end Pyttb
